@@ -307,10 +307,9 @@ var seenPrefix = map[[32]byte]bool{}
 func concBody(g lstore.Geometry, script []string, lim lstore.CrashLimits) func() {
 	return func() {
 		med := lstore.NewMedia(g)
-		s := lstore.Open(g, med)
 		ctx, cancel := context.WithCancel(context.Background())
 		defer cancel()
-		s.StartSyncers(ctx, nil)
+		s := lstore.OpenWith(g, med, lstore.OpenOptions{Ctx: ctx})
 		for _, op := range script {
 			if op[:3] == "Get" {
 				_, err := s.Get(obj(g, op[3:]).Digest)
